@@ -202,6 +202,7 @@ type GenOpts struct {
 	NonNegOnly bool // force non-negative coordinates for every type
 	Orbit      bool // also draw the orbit fills (meaningful to C10 only)
 	TallRows   int  // when > 0, a quarter of the images have between MaxDim+1 and TallRows rows
+	Wide       int  // when > 0, a tenth of the images are banners: 1..3 rows of 71..Wide pixels (log-uniform, power-of-two neighbours favoured)
 }
 
 // Gen draws a Spec.
@@ -232,11 +233,37 @@ func Gen(t *rapid.T, label string, o GenOpts) Spec {
 		// more rows than the largest parallelism, so that every worker owns at least one row
 		h = rapid.IntRange(maxDim+1, o.TallRows).Draw(t, label+"htall")
 	}
+	banner := false
+	if o.Wide > 71 && rapid.IntRange(0, 9).Draw(t, label+"banner") == 0 {
+		banner = true
+		bits := 7
+		for 1<<uint(bits+1) <= o.Wide {
+			bits++
+		}
+		k := rapid.IntRange(7, bits).Draw(t, label+"wbits")
+		switch rapid.IntRange(0, 2).Draw(t, label+"wkind") {
+		case 0:
+			w = 1<<uint(k) + rapid.IntRange(-1, 1).Draw(t, label+"wd")
+		default:
+			hi := 1<<uint(k+1) - 1
+			if hi > o.Wide {
+				hi = o.Wide
+			}
+			w = rapid.IntRange(1<<uint(k), hi).Draw(t, label+"wbanner")
+		}
+		if w > o.Wide {
+			w = o.Wide
+		}
+		h = rapid.IntRange(1, 3).Draw(t, label+"hbanner")
+	}
 	lo := -6
 	if ycc || o.NonNegOnly {
 		lo = 0
 	}
 	x0 := rapid.IntRange(lo, 6).Draw(t, label+"x0")
+	if banner && rapid.Bool().Draw(t, label+"farx") {
+		x0 = rapid.IntRange(7, 300).Draw(t, label+"x0far")
+	}
 	y0 := rapid.IntRange(lo, 6).Draw(t, label+"y0")
 	s.Rect = [4]int{x0, y0, x0 + w, y0 + h}
 	s.Parent = s.Rect
